@@ -701,6 +701,10 @@ PROPS["C04"] = {
         "Lace.C04.dup_label_rejected",
         "Lace.C04.undefined_label_rejected",
         "Lace.C04.second_orig_rejected",
+        "Lace.C01.parse_tokens_ok_image",
+        "Lace.C04.accept_render_image",
+        "Lace.C04.accept_iff_wf_render",
+        "Lace.C04.reject_render",
     ],
     "compare": cmp_default,
     "classify": enc_classify,
@@ -719,7 +723,8 @@ PROPS["C04"] = {
              "labels and repeated .orig, a third of them under two layouts."),
     "trusted": [
         "the harness renderer (enc.rs, asmgen.rs) realises the relation `t is a layout of P`",
-        "text-level theorem accept_iff_wf is stated, not proved: text -> AIR is covered by this correspondence only",
+        "text-level theorem accept_iff_wf_render is proved for the layout space Layout.ok of Spec/Render.lean; that the "
+        "harness renderer stays inside it is re-checked by the driver on every text of a renderable program, accepted or rejected",
     ],
     "assumptions": [
         "labels are valid label names whatever the stack flag (I13); a label marks a statement of at least one word",
